@@ -107,6 +107,12 @@ type ContendCase struct {
 	G      int    `json:"g"`      // concurrent generators (= nodes)
 	Taken  int    `json:"taken"`  // classes pre-existing (0..K-1, the first ones)
 	Rounds int    `json:"rounds"` // rounds to run
+	// Sweep: before every round each class key holds an EXPIRED, not yet swept marker (a
+	// leftover older than its TTL) and a sweeper calls the store's CleanupExpired (what the
+	// backend's cleanup ticker does) while the generators claim. Filler = live unrelated keys
+	// in the store (a sweep is a full scan: the larger the store the longer it takes).
+	Sweep  bool `json:"sweep,omitempty"`
+	Filler int  `json:"filler,omitempty"`
 }
 
 type contendResult struct {
@@ -172,9 +178,22 @@ func runContend(c ContendCase) contendResult {
 	free := c.K - len(taken)
 	ids := make([]string, c.G)
 	errs := make([]error, c.G)
+	for i := 0; i < c.Filler; i++ {
+		st.Set(fmt.Sprintf("tunnox:temp:verif-filler:%d", i), i, time.Hour)
+	}
 	for round := 0; round < c.Rounds; round++ {
 		fs.newRound(round)
-		b := &spinBarrier{n: int32(c.G)}
+		nb := c.G
+		var sweeping int32
+		var swg sync.WaitGroup
+		if c.Sweep {
+			for cl := 0; cl < c.K; cl++ {
+				st.Set(classKey(c.Kind, cl), "expired-leftover", time.Nanosecond)
+			}
+			nb++
+			atomic.StoreInt32(&sweeping, 1)
+		}
+		b := &spinBarrier{n: int32(nb)}
 		var wg sync.WaitGroup
 		wg.Add(c.G)
 		for i := 0; i < c.G; i++ {
@@ -184,7 +203,19 @@ func runContend(c ContendCase) contendResult {
 				ids[i], errs[i] = w.generate(i, c.Kind)
 			}(i)
 		}
+		if c.Sweep {
+			swg.Add(1)
+			go func() {
+				defer swg.Done()
+				b.wait()
+				for n := 0; n < 1 || atomic.LoadInt32(&sweeping) == 1; n++ {
+					_ = st.CleanupExpired()
+				}
+			}()
+		}
 		wg.Wait()
+		atomic.StoreInt32(&sweeping, 0)
+		swg.Wait()
 		r.rounds++
 		// quiescent: oracle
 		holder := map[int]string{}
@@ -217,12 +248,16 @@ func runContend(c ContendCase) contendResult {
 				return r
 			}
 			if other, dup := holder[cl]; dup {
+				if c.Sweep {
+					fail("C15/contend/duplicate-live-id/claims-during-concurrent-sweep", fmt.Sprintf("generators returned %q and %q, both class %d, both live: a claim succeeded although the class had just been claimed (its fresh marker vanished while CleanupExpired ran, or SetNX is not exclusive)", other, ids[i], cl))
+					return r
+				}
 				fail("C15/contend/duplicate-live-id/concurrent-claims-of-one-key", fmt.Sprintf("generators returned %q and %q, both class %d, both live: the store's SetNX let two simultaneous claims of one absent key succeed", other, ids[i], cl))
 				return r
 			}
 			holder[cl] = ids[i]
 			if ex, _ := st.Exists(classKey(c.Kind, cl)); !ex {
-				fail("C15/contend/live-id-marker-missing", fmt.Sprintf("%q (class %d)", ids[i], cl))
+				fail("C15/contend/live-id-marker-missing", fmt.Sprintf("%q (class %d) was handed out and is live, but its marker is gone from the store (IsUsed would be false, the id can be handed out again)", ids[i], cl))
 				return r
 			}
 		}
@@ -236,8 +271,30 @@ func runContend(c ContendCase) contendResult {
 		if winners >= 2 {
 			r.fullHouse++
 		}
+		// a second, sequential wave: with every id of the first wave still live, further
+		// generations may only get the remaining classes
+		if c.Sweep {
+			for j := 0; j <= c.K-winners; j++ {
+				id, err := w.generate(0, c.Kind)
+				if err != nil {
+					if !errors.Is(err, idgen.ErrIDExhausted) {
+						fail("C15/contend/unclean-failure", err.Error())
+						return r
+					}
+					break
+				}
+				cl, _ := fs.classOf(c.Kind, id)
+				if other, dup := holder[cl]; dup {
+					fail("C15/contend/duplicate-live-id/marker-of-live-id-removed", fmt.Sprintf("%q (class %d) handed out while %q of the same class is live and unreleased", id, cl, other))
+					return r
+				}
+				holder[cl] = id
+				ids = append(ids, id)
+				errs = append(errs, nil)
+			}
+		}
 		// release everything (sequentially), markers must be gone
-		for i := 0; i < c.G; i++ {
+		for i := 0; i < len(ids); i++ {
 			if errs[i] == nil {
 				if err := w.release(i, c.Kind, ids[i]); err != nil {
 					fail("C15/contend/release-failed", err.Error())
@@ -245,6 +302,7 @@ func runContend(c ContendCase) contendResult {
 				}
 			}
 		}
+		ids, errs = ids[:c.G], errs[:c.G]
 		for cl := 0; cl < c.K; cl++ {
 			if ex, _ := st.Exists(classKey(c.Kind, cl)); ex != taken[cl] {
 				fail("C15/contend/released-id-still-marked", fmt.Sprintf("class %d marked=%v after all releases (pre-existing=%v)", cl, ex, taken[cl]))
@@ -315,7 +373,10 @@ func runContendNodes(ctx context.Context, c ContendCase, st storage.Storage) con
 
 func reportContend(t vkit.TB, c ContendCase, r contendResult) {
 	class := c.Mode + "/" + c.Store
-	sig := fmt.Sprintf("%s|%s|%s|k=%d|g=%d|taken=%d", c.Mode, c.Store, c.Kind, c.K, c.G, c.Taken)
+	sig := fmt.Sprintf("%s|%s|%s|k=%d|g=%d|taken=%d|sweep=%v", c.Mode, c.Store, c.Kind, c.K, c.G, c.Taken, c.Sweep)
+	if c.Sweep {
+		class += "/expired-leftovers+concurrent-sweep"
+	}
 	if r.key != "" {
 		vkit.Violation(t, r.key, r.detail, c)
 		vkit.Case("known:"+class, true, sig)
@@ -345,6 +406,9 @@ func TestContention(t *testing.T) {
 				ContendCase{Mode: "contend-idgen", Store: store, Kind: kind, K: 2, G: 3 + ki%2},
 			)
 		}
+		for ki, kind := range idKinds {
+			cases = append(cases, ContendCase{Mode: "contend-idgen", Store: store, Kind: kind, K: 4 + ki, G: 4, Sweep: true, Filler: 3000})
+		}
 		cases = append(cases,
 			ContendCase{Mode: "contend-nodealloc", Store: store, G: 8},
 			ContendCase{Mode: "contend-nodealloc", Store: store, G: 4, Taken: 3},
@@ -361,6 +425,9 @@ func TestContention(t *testing.T) {
 		}
 		if c.Mode == "contend-nodealloc" {
 			c.Rounds = perCase / 2
+		}
+		if c.Sweep {
+			c.Rounds = perCase / 5 // every round scans the filler keys several times
 		}
 		r := runContend(c)
 		reportContend(t, c, r)
